@@ -52,6 +52,11 @@ def evaluate(d, a):
         r = sh(f'cd {repo} && git init -q . && git apply --whitespace=nowarn '
                f'{d}/patch.diff')
         if r.returncode:
+            # the patch may have been written against an earlier commit
+            r = sh(f'cd {repo} && patch -p1 --fuzz=3 --no-backup-if-mismatch '
+                   f'< {d}/patch.diff')
+            res['applied_with_fuzz'] = True
+        if r.returncode:
             res['status'] = 'PATCH-FAILED'
             res['msg'] = r.stderr[-300:]
             return res
